@@ -362,7 +362,8 @@ def real_view(err, out):
         return "error:" + err, b"", []
     k = next((q for q, it in enumerate(out) if it[0] == "img"), None)
     if k is None:
-        return ("eof" if not out else "noimage"), b"", [(a, b) for (a, b) in out]
+        # nothing but the operators of preceding streams: the image and what follows it never arrived
+        return "eof", b"", []
     rest = [(it[0], it[1]) for it in out[k + 1:]]
     return "done", out[k][1], rest
 
